@@ -139,6 +139,10 @@ def hashable_data() -> st.SearchStrategy[t.Any]:
 # nodes
 
 
+class Names(list):  # type: ignore
+    groups: t.List[t.List[str]] = []
+
+
 class Node:
     kind: str = '?'
     hashable: bool = False       # the *image* is always hashable
@@ -190,13 +194,19 @@ class Node:
             yield from c.walk()
 
     def names(self) -> t.List[str]:
-        """Key names this type knows about (for key-level mutations)."""
-        out: t.List[str] = []
+        """Key names this type knows about (for key-level mutations); ``.groups`` lists the sets of keys that name one and the same field."""
+        out = Names()
+        groups: t.List[t.List[str]] = []
         for n in self.walk():
             out.extend(n.own_names())
+            groups.extend(n.own_groups())
+        out.groups = groups
         return out
 
     def own_names(self) -> t.List[str]:
+        return []
+
+    def own_groups(self) -> t.List[t.List[str]]:
         return []
 
     def subpairs(self, v: t.Any) -> t.List[t.Tuple['Node', t.Any]]:
